@@ -18,6 +18,8 @@ Mechanism keys
   post-commit/<callback-kind>/<complaint>            complaint in exception-reached-caller,
       operation-incomplete, other-handler-skipped, log-differs, exception-vanished,
       secondary-exception, cache-stale
+      (a deciding callback of a NESTED assignment, e.g. the partner's validator while sync_trait
+      forwards: exception-reached-caller, differs-from-rejection, cache-stale)
   afterwards/<callback-kind>/<op-kind>/diverged
   harness/nondeterministic-replay                    (replay did not rebuild the twin's state)
 """
@@ -32,6 +34,7 @@ from traits.adaptation.api import (
     AdaptationManager, get_global_adaptation_manager, set_global_adaptation_manager,
 )
 from traits.observation import api as obsapi
+from traits.trait_notifiers import get_change_event_tracers, set_change_event_tracers
 from traits.observation.events import (
     TraitChangeEvent, ListChangeEvent, DictChangeEvent, SetChangeEvent,
 )
@@ -57,36 +60,53 @@ META = {
              "depends_on properties (cached and uncached), Supports/Instance/AdaptsTo assignment in "
              "both adaptation modes (adapt='yes' and adapt='default') through a private global "
              "AdaptationManager with two-step and conditional adapter chains, nested "
-             "Instance child; 20% of the histories are a property stratum, 10% an adaptation "
-             "stratum, with listeners forced on the traits concerned) x a random set of static / on_trait_change / observe handlers. "
+             "Instance child, quiet and notifying multi-name sets (trait_setq / trait_set(trait_change_"
+             "notify=False) / trait_set), a second object linked by sync_trait(mutual=True) on a "
+             "scalar and a List trait with operations on either side; strata: 50% general, 20% "
+             "property, 10% adaptation, 10% quiet-set, 10% sync, with listeners forced on the traits "
+             "concerned) x a random set of static / on_trait_change / observe handlers. "
              "Per history the fault space is ENUMERATED: every operation j x every user-callback "
              "tick k <= n_j (learnt from a fault-free twin) x E in {TraitError, ValueError, "
              "AttributeError, RuntimeError}. distinct_nontrivial = distinct (operation kind, "
              "callback kind, role, E, outcome class) signatures of injected faults."),
     "phases": [{"name": "main", "flavour": "P", "shards": 16}],
     "gates": {
-        "quick": dict({"histories": 200, "histories:property": 40, "histories:adapt": 20,
-                       "faults_injected": 15000, "precommit_judged": 9000,
-                       "postcommit_judged": 5000, "followup_ops_compared": 60000,
-                       "postcommit_getter_faults": 300, "postcommit_getter_faults:dp": 200,
-                       "postcommit_getter_faults:cp": 200,
-                       "cached_property_renotified_after_fault:dp": 100,
-                       "cached_property_renotified_after_fault:cp": 100,
-                       "faults:adapter-factory:default-mode": 400,
-                       "faults:adapter-factory:default-mode:holding-value": 100,
-                       "alt_twin_compared": 80, "alt_natural_reject_compared": 60},
-                      **{"faults:" + k: 60 for k in _KINDS}),
-        "thorough": dict({"histories": 3000, "histories:property": 600, "histories:adapt": 300,
-                          "faults_injected": 250000, "precommit_judged": 140000,
-                          "postcommit_judged": 80000, "followup_ops_compared": 1000000,
-                          "postcommit_getter_faults": 5000, "postcommit_getter_faults:dp": 3000,
-                          "postcommit_getter_faults:cp": 3000,
-                          "cached_property_renotified_after_fault:dp": 1500,
-                          "cached_property_renotified_after_fault:cp": 1500,
-                          "faults:adapter-factory:default-mode": 6000,
-                          "faults:adapter-factory:default-mode:holding-value": 1500,
-                          "alt_twin_compared": 1200, "alt_natural_reject_compared": 900},
-                         **{"faults:" + k: 1000 for k in _KINDS}),
+        "quick": dict({"faults:" + k: 60 for k in _KINDS}, **{
+            "histories": 200, "histories:property": 40, "histories:adapt": 20,
+            "histories:quiet": 20, "histories:sync": 20,
+            "faults_injected": 15000, "precommit_judged": 9000,
+            "postcommit_judged": 5000, "followup_ops_compared": 60000,
+            "postcommit_getter_faults": 300, "postcommit_getter_faults:dp": 200,
+            "postcommit_getter_faults:cp": 200,
+            "cached_property_renotified_after_fault:dp": 100,
+            "cached_property_renotified_after_fault:cp": 100,
+            "faults:adapter-factory:default-mode": 400,
+            "faults:adapter-factory:default-mode:holding-value": 100,
+            "alt_twin_compared": 80, "alt_natural_reject_compared": 50,
+            "faults:default-factory": 50,
+            # quiet / multi-name sets
+            "faults:in-quiet-set": 600, "faults:in-multi-set:later-name": 500,
+            "notifications_after_failed_quiet_set": 2000,
+            # nested deciding callbacks (sync_trait forwarding)
+            "nested_deciding_judged": 500, "nested_rejection_twin_compared": 400,
+            "nested_followup_ops_compared": 1800}),
+        "thorough": dict({"faults:" + k: 1000 for k in _KINDS}, **{
+            "histories": 3000, "histories:property": 600, "histories:adapt": 300,
+            "histories:quiet": 300, "histories:sync": 300,
+            "faults_injected": 250000, "precommit_judged": 140000,
+            "postcommit_judged": 80000, "followup_ops_compared": 1000000,
+            "postcommit_getter_faults": 5000, "postcommit_getter_faults:dp": 3000,
+            "postcommit_getter_faults:cp": 3000,
+            "cached_property_renotified_after_fault:dp": 1500,
+            "cached_property_renotified_after_fault:cp": 1500,
+            "faults:adapter-factory:default-mode": 6000,
+            "faults:adapter-factory:default-mode:holding-value": 1500,
+            "alt_twin_compared": 1200, "alt_natural_reject_compared": 800,
+            "faults:default-factory": 800,
+            "faults:in-quiet-set": 9000, "faults:in-multi-set:later-name": 8000,
+            "notifications_after_failed_quiet_set": 30000,
+            "nested_deciding_judged": 8000, "nested_rejection_twin_compared": 6000,
+            "nested_followup_ops_compared": 28000}),
     },
     "exhaustive_parts": ("for each generated history, all (operation j, callback tick k, exception "
                          "type E) fault positions are enumerated (k capped at 40 per operation; "
@@ -104,6 +124,16 @@ META = {
         "change, e.g. lst[0] = the item already there); every other callback's role is measured",
         "instance traits created lazily by the notification machinery (_trait(name, 2)) are not "
         "state: the census counts notifiers per name through _trait(name, 0)",
+        "a multi-name set is one assignment per name in order (documented, not atomic across names): "
+        "a failing deciding callback of the m-th name must leave exactly what the same call restricted "
+        "to the first m-1 names leaves, and the history must continue like that twin",
+        "a deciding callback of a nested assignment made by traits itself during notification (the "
+        "partner's validator while sync_trait forwards) has traits as its caller, which documents "
+        "'the partner rejects': nothing may reach the outer caller and the run and everything after "
+        "it must equal the run in which that callback rejected with TraitError (whether the injected "
+        "exception is also reported on an exception channel is not compared)",
+        "a cached property already stale before the operation (a quiet set invalidates nothing) is "
+        "not held against the operation",
         "notifications whose subject is a property whose getter was faulted post-commit are exempt, "
         "and so is the `old` value of the next notification of a cached property whose cache could "
         "not be refilled (both rules verified necessary and sufficient on the unchanged tree)",
@@ -190,9 +220,11 @@ class Env:
         self.fp = FP()
         self.log = []        # (tick, mech, subject-object, name, old, new)
         self.chan = []       # (channel, exception type name, is-the-injected-instance)
+        self.depth = 0       # depth of static / on_trait_change handler dispatch (change event tracers)
 
     def reset(self):
         self.fp.off()
+        self.depth = 0
         del self.log[:]
         del self.chan[:]
 
@@ -205,6 +237,18 @@ def _legacy_exc(obj, name, old, new):
     e = sys.exc_info()[1]
     if env is not None:
         env.chan.append(("legacy", type(e).__name__, e is env.fp.raised))
+
+
+def _pre_tracer(obj, name, old, new, handler):
+    env = _CUR[0]
+    if env is not None:
+        env.depth += 1
+
+
+def _post_tracer(obj, name, old, new, handler, exception=None):
+    env = _CUR[0]
+    if env is not None and env.depth > 0:
+        env.depth -= 1
 
 
 def _obs_exc(event):
@@ -400,7 +444,7 @@ def make_classes(env, cfg):
         return [1]
 
     def _get_p(self):
-        fp.tick("getter", ("W", "p"))
+        fp.tick("getter", (repr(self), "p"))
         return self._p + self.t
 
     def _set_p(self, v):
@@ -408,15 +452,15 @@ def make_classes(env, cfg):
         self._p = v
 
     def _get_cp(self):
-        fp.tick("cached-getter", ("W", "cp"))
+        fp.tick("cached-getter", (repr(self), "cp"))
         return self.t * 2
 
     def _get_dp(self):
-        fp.tick("cached-getter", ("W", "dp"))
+        fp.tick("cached-getter", (repr(self), "dp"))
         return self.i * 3
 
     def _get_dn(self):
-        fp.tick("getter", ("W", "dn"))
+        fp.tick("getter", (repr(self), "dn"))
         return self.i + 7
 
     cns = {
@@ -465,7 +509,7 @@ def make_classes(env, cfg):
         "_get_cp": cached_property(_get_cp),
         "_get_dp": cached_property(_get_dp),
         "_get_dn": _get_dn,
-        "__repr__": lambda self: "W",
+        "__repr__": lambda self: self.__dict__.get("_vf_name", "W"),
     }
     for nm in cfg["static"]:
         ns["_%s_changed" % nm] = static(nm)
@@ -503,14 +547,27 @@ def make_classes(env, cfg):
     return W, Child, am
 
 
-def cache_stale(main):
-    """C12's never-stale law on the two cached properties (None = fine)."""
-    d = main.__dict__
-    if "_traits_cache_cp" in d and d["_traits_cache_cp"] != d.get("t", 0) * 2:
-        return "cp"
-    if "_traits_cache_dp" in d and d["_traits_cache_dp"] != d.get("i", 0) * 3:
-        return "dp"
-    return None
+def cache_stale(ws):
+    """C12's never-stale law on the two cached properties: the set of (object, property)
+    whose cache entry disagrees with its dependencies (empty = fine)."""
+    out = None
+    for o in ws:
+        d = o.__dict__
+        if "_traits_cache_cp" in d and d["_traits_cache_cp"] != d.get("t", 0) * 2:
+            out = (out or frozenset()) | {(repr(o), "cp")}
+        if "_traits_cache_dp" in d and d["_traits_cache_dp"] != d.get("i", 0) * 3:
+            out = (out or frozenset()) | {(repr(o), "dp")}
+    return out or frozenset()
+
+
+def newly_stale(r_stale, *refs):
+    """Stale caches of the faulted graph that none of the references has (a quiet set
+    invalidates nothing, so a twin may legitimately carry a stale cache)."""
+    x = set(r_stale)
+    for ref in refs:
+        if ref:
+            x -= set(ref)
+    return sorted(x)
 
 
 class Graph:
@@ -522,6 +579,17 @@ class Graph:
         self.Child = Child
         self.main = W()
         self.pool = [("W", self.main, MAIN_TRAITS)]
+        self.ws = [self.main]
+        self.b = None
+        if cfg.get("sync"):
+            # a second object of the same class, mutually synchronised on some traits
+            self.b = W()
+            self.b.__dict__["_vf_name"] = "W2"
+            self.pool.append(("W2", self.b, MAIN_TRAITS))
+            self.ws.append(self.b)
+            if cfg["sync_first"]:
+                for nm in cfg["sync"]:
+                    self.main.sync_trait(nm, self.b, mutual=True)
         fp = env.fp
         log = env.log
 
@@ -558,6 +626,18 @@ class Graph:
             h = obs(ex)
             self.keep.append(h)
             self.main.observe(h, ex)
+        if self.b is not None:
+            for nm in cfg["b_otc"]:
+                h = otc("b:" + nm)
+                self.keep.append(h)
+                self.b.on_trait_change(h, nm)
+            for ex in cfg["b_obs"]:
+                h = obs("b:" + ex)
+                self.keep.append(h)
+                self.b.observe(h, ex)
+            if not cfg["sync_first"]:
+                for nm in cfg["sync"]:
+                    self.main.sync_trait(nm, self.b, mutual=True)
         if cfg["obj_otc"]:
             h = otc("*")
             self.keep.append(h)
@@ -589,9 +669,21 @@ class Graph:
         return d
 
     # -- operations --------------------------------------------------------
-    def do(self, op):
-        a = self.main
+    def do(self, op, a=None):
+        if a is None:
+            a = self.main
         k = op[0]
+        if k == "on-b":
+            return self.do(op[1], self.b)
+        if k == "multi":
+            d = {n: self.val(v) for n, v in op[2]}
+            if op[1] == "setq":
+                a.trait_setq(**d)
+            elif op[1] == "quiet":
+                a.trait_set(trait_change_notify=False, **d)
+            else:
+                a.trait_set(**d)
+            return None
         if k == "set":
             setattr(a, op[1], self.val(op[2]))
             return None
@@ -750,7 +842,7 @@ def diff_values(a, b, same_graph_ids=None):
             continue
         if x is None or y is None:
             present = y if x is None else x
-            spec = MAIN_TRAITS if k[0] == "W" else CHILD_TRAITS
+            spec = MAIN_TRAITS if k[0].startswith("W") else CHILD_TRAITS
             if present[0] == spec[k[1]][1]:
                 continue          # the declared default, merely materialised
         out.append(k)
@@ -771,6 +863,10 @@ def diff_census(a, b):
 # ---------------------------------------------------------------------------
 def op_kind(op):
     k = op[0]
+    if k == "on-b":
+        return "partner:" + op_kind(op[1])
+    if k == "multi":
+        return "multi-" + op[1]
     if k == "set":
         if op[1] in PROPS:
             return "assign-property"
@@ -794,6 +890,7 @@ def gen_config(rng):
         "otc": pick(OTC_CANDS, 1, 8),
         "obs": pick(OBS_CANDS, 1, 8),
         "obj_otc": rng.random() < 0.12,
+        "sync": [], "sync_first": rng.random() < 0.5, "b_otc": [], "b_obs": [],
     }
 
 
@@ -817,7 +914,7 @@ def _items(rng, lo, hi, strs_ok=False):
 def gen_op(rng, idx):
     c = rng.randrange(100)
     if c < 14:      # scalar assignments
-        a = rng.choice(["i", "s", "f", "t", "t", "f", "dyn", "dv", "dv", "_p", "box"])
+        a = rng.choice(["i", "s", "f", "t", "t", "f", "dyn", "dv", "dv", "_p", "box", "box"])
         if a == "s":
             v = rng.choice(["a", "b", "", 3])
         elif a == "box":
@@ -906,14 +1003,16 @@ def gen_op(rng, idx):
             return (rng.choice(["set-isub", "set-difference"]), "st", set(_items(rng, 1, 3)))
         return ("set-clear", "st")
     if c < 83:      # reads (defaults, properties)
-        return ("get", rng.choice(["dyn", "dv", "dv", "lazy", "lazy", "box", "box", "box", "p", "cp", "cp", "dp",
+        return ("get", rng.choice(["dyn", "dv", "dv", "lazy", "lazy", "box", "box", "box", "box", "box", "p", "cp", "cp", "dp",
                                    "dp", "dn", "lst", "sup", "supd", "ada", "t"]))
     if c < 89:      # property set
         return ("set", "p", rng.choice([_int(rng), _int(rng), _int(rng), "x"]))
     if c < 95:      # adaptation
         return gen_adapt_op(rng, idx)
-    if c < 98:
+    if c < 97:
         return ("set", "child", rng.choice([("@", "child", idx), ("@", "child", idx), None]))
+    if c < 98:
+        return gen_multi_op(rng, idx)
     return ("child-set", rng.choice(["v", "v", "w"]), rng.choice([_int(rng), _int(rng), "x"]))
 
 
@@ -939,6 +1038,72 @@ def gen_prop_op(rng, idx):
     if c < 19:
         return ("set", rng.choice(["p", "_p"]), _int(rng))
     return gen_op(rng, idx)
+
+
+MULTI_NAMES = ["f", "t", "dv", "p", "i", "un", "ei", "dyn", "s", "lst", "_p", "tu"]
+
+
+def _multi_value(rng, n):
+    if n == "s":
+        return rng.choice(["a", "b", "", 3])
+    if n == "lst":
+        return _items(rng, 0, 3)
+    if n == "tu":
+        return rng.choice([(_int(rng), _int(rng)), ("a", _int(rng)), (_int(rng), "b"), (1,)])
+    if n in ("un", "ei"):
+        return rng.choice([_int(rng), _int(rng), "abc", 1.5])
+    return "x" if rng.random() < 0.12 else _int(rng)
+
+
+def gen_multi_op(rng, idx):
+    """trait_setq(**several) / trait_set(trait_change_notify=False, **several) / trait_set(**several):
+    documented as one assignment per name, in order (not atomic across names)."""
+    mode = rng.choice(["setq", "setq", "quiet", "quiet", "notify"])
+    names = rng.sample(MULTI_NAMES, rng.randint(2, 3))
+    return ("multi", mode, tuple((n, _multi_value(rng, n)) for n in names))
+
+
+def gen_quiet_stratum_op(rng, idx):
+    c = rng.randrange(20)
+    if c < 8:
+        return gen_multi_op(rng, idx)
+    if c < 17:
+        n = rng.choice(MULTI_NAMES)
+        return ("set", n, _multi_value(rng, n))
+    return gen_op(rng, idx)
+
+
+def gen_sync_stratum_op(rng, idx, synced):
+    """Assignments and list mutations on either side of a mutual sync_trait link."""
+    c = rng.randrange(20)
+    if c < 7:
+        op = ("set", "t", rng.choice([_int(rng), _int(rng), _int(rng), _int(rng), "x"]))
+    elif c < 9:
+        op = ("set", "f", rng.choice([_int(rng), _int(rng), "x"]))
+    elif c < 17:
+        m = rng.randrange(10)
+        if m < 2:
+            op = ("list-append", "lst", _item(rng))
+        elif m < 4:
+            op = ("list-extend", "lst", _items(rng, 1, 3))
+        elif m == 4:
+            op = ("list-setitem", "lst", rng.randint(-1, 1), _item(rng))
+        elif m == 5:
+            op = ("list-setslice", "lst", rng.choice([(0, 2, None), (1, None, None), (0, 0, None)]),
+                  _items(rng, 0, 3))
+        elif m == 6:
+            op = ("list-iadd", "lst", _items(rng, 1, 2))
+        elif m == 7:
+            op = ("list-insert", "lst", rng.randint(0, 2), _item(rng))
+        elif m == 8:
+            op = rng.choice([("list-delitem", "lst", 0), ("list-pop", "lst")])
+        else:
+            op = rng.choice([("list-clear", "lst"), ("list-reverse", "lst")])
+    elif c < 18:
+        op = ("set", "lst", _items(rng, 0, 3))
+    else:
+        return gen_op(rng, idx)
+    return ("on-b", op) if rng.random() < 0.5 else op
 
 
 def watched(cfg):
@@ -987,6 +1152,20 @@ def gen_history(rng, stratum="general"):
         while len(ops) < n:
             ops.append(gen_prop_op(rng, len(ops)))
         return cfg, ops
+    if stratum == "quiet":
+        _force(rng, cfg, rng.sample(MULTI_NAMES, 5))
+        while len(ops) < n:
+            ops.append(gen_quiet_stratum_op(rng, len(ops)))
+        return cfg, ops
+    if stratum == "sync":
+        cfg["sync"] = ["t", "lst"] + (["f"] if rng.random() < 0.5 else [])
+        cfg["b_otc"] = sorted(rng.sample(["t", "lst_items", "f", "lst"], rng.randint(1, 3)))
+        cfg["b_obs"] = sorted(rng.sample(["t", "lst.items", "f"], rng.randint(0, 2)))
+        _force(rng, cfg, ["t"], ("static", "otc", "obs"))
+        _force(rng, cfg, ["lst_items"], ("static", "otc"))
+        while len(ops) < n:
+            ops.append(gen_sync_stratum_op(rng, len(ops), cfg["sync"]))
+        return cfg, ops
     if stratum == "adapt":
         _force(rng, cfg, ["supd", "insd"])
         _force(rng, cfg, rng.sample(["sup", "ada"], 1))
@@ -1006,8 +1185,8 @@ def gen_history(rng, stratum="general"):
 
 
 def stratum_of(h):
-    r = h % 10
-    return "property" if r in (3, 7) else "adapt" if r == 5 else "general"
+    r = (h // 16) % 10          # independent of the shard (h % 16): every shard sees every stratum
+    return {3: "property", 7: "property", 5: "adapt", 1: "quiet", 9: "sync"}.get(r, "general")
 
 
 # ---------------------------------------------------------------------------
@@ -1024,6 +1203,7 @@ def strip(log):
 def run_op(g, op):
     """Run op on graph g with the FP in whatever mode the caller set; returns Res."""
     env = g.env
+    env.depth = 0
     l0, c0 = len(env.log), len(env.chan)
     r = Res()
     r.exc = None
@@ -1039,47 +1219,72 @@ def run_op(g, op):
     r.vals, r.cen, r.ids = g.snap()
     r.log = env.log[l0:]
     r.chan = env.chan[c0:]
-    r.stale = cache_stale(g.main)
+    r.stale = cache_stale(g.ws)
     return r
 
 
-class Trace:
-    """A fault-free run of a history (optionally skipping one op)."""
+_SKIP = object()
 
-    def __init__(self, env, classes, cfg, ops, skip=None, learn=False):
+
+class Trace:
+    """A fault-free run of a history.  `replace` = {index: op or _SKIP} runs a variant of the
+    history (an op left out, or a multi-set truncated to its first names); `count_at` counts
+    the user-callback ticks of that op (self.nticks)."""
+
+    def __init__(self, env, classes, cfg, ops, replace=None, learn=False, count_at=None):
         W, Child, am = classes
         g = Graph(env, W, Child, cfg)
         self.pre = []         # snapshot before op m
-        self.res = []         # Res after op m (None for the skipped op)
+        self.res = []         # Res after op m (None for a skipped op)
         self.post_flags = []  # per op: list of bools (tick is post-commit)
         self.nat = []
+        self.nticks = None
         cur = g.snap()
         for m, op in enumerate(ops):
             self.pre.append(cur)
-            if m == skip:
-                self.res.append(None)
-                self.post_flags.append([])
-                self.nat.append(set())
-                continue
+            if replace is not None and m in replace:
+                op = replace[m]
+                if op is _SKIP:
+                    self.res.append(None)
+                    self.post_flags.append([])
+                    self.nat.append(set())
+                    continue
             if learn:
-                pv, pc = cur[0], cur[1]
-                l0, c0 = len(env.log), len(env.chan)
-
-                def probe(pv=pv, pc=pc, l0=l0, c0=c0):
-                    if len(env.log) != l0 or len(env.chan) != c0:
-                        return True
-                    v, c, _ = g.snap()
-                    return bool(diff_values(pv, v)) or bool(diff_census(pc, c))
-                env.fp.learn(probe)
+                env.fp.learn(make_probe(env, g, cur[0], cur[1]))
+            elif m == count_at:
+                env.fp.learn(_never)
             r = run_op(g, op)
+            if m == count_at:
+                self.nticks = len(r.kinds)
             self.res.append(r)
-            # a change handler runs in the notification phase by definition (an operation
-            # such as lst[0] = <the item already there> notifies without a visible change);
-            # every other callback's role is the measured commit point
-            self.post_flags.append([p or kd.startswith("handler-") for p, kd in zip(env.fp.post, r.kinds)]
-                                   if learn else [])
+            self.post_flags.append(roles_of(env.fp.post, r.kinds) if learn else [])
             self.nat.append(set(env.fp.nat) if learn else set())
             cur = (r.vals, r.cen, r.ids)
+
+
+def _never():
+    return False
+
+
+def make_probe(env, g, pv, pc):
+    """Commit detector: has the graph left the state (pv, pc), or was anything notified?"""
+    l0, c0 = len(env.log), len(env.chan)
+
+    def probe():
+        # inside the dispatch of a static / on_trait_change notifier (traits' documented change
+        # event tracers): the notification phase has begun even if nothing changed visibly
+        if env.depth or len(env.log) != l0 or len(env.chan) != c0:
+            return True
+        v, c, _ = g.snap()
+        return bool(diff_values(pv, v)) or bool(diff_census(pc, c))
+    return probe
+
+
+def roles_of(post, kinds):
+    # a change handler runs in the notification phase by definition (an operation such as
+    # lst[0] = <the item already there> notifies without a visible change); every other
+    # callback's role is the measured commit point
+    return [p or kd.startswith("handler-") for p, kd in zip(post, kinds)]
 
 
 def replay_prefix(env, classes, cfg, ops, j):
@@ -1096,25 +1301,39 @@ def replay_prefix(env, classes, cfg, ops, j):
 # ---------------------------------------------------------------------------
 # the oracle
 # ---------------------------------------------------------------------------
-def first_pre_complaint(E, r, pre):
+class Base:
+    """What a failing deciding callback must leave behind: for an ordinary operation the
+    pre-state and no notification; for the m-th name of a multi-set (documented: one
+    assignment per name, earlier names stay assigned) the outcome of the same call
+    restricted to the first m-1 names."""
+    __slots__ = ("vals", "cen", "ids", "log", "chan", "stale")
+
+    def __init__(self, vals, cen, ids, log, chan, stale=None):
+        self.vals, self.cen, self.ids, self.log, self.chan = vals, cen, ids, log, chan
+        self.stale = stale      # a cache already stale there (a quiet set invalidates nothing)
+
+
+def first_pre_complaint(E, r, base):
     """Clause (i) of the pre-commit rule; returns (complaint or None, detail)."""
-    pv, pc, pids = pre
+    pv, pc = base.vals, base.cen
+    same = (base.ids, r.ids) if base.ids is not None else None
     if r.out[0] == "ok":
-        dv = diff_values(pv, r.vals, (pids, r.ids))
+        dv = diff_values(pv, r.vals, same)
         return "wrong-exception:none", ("the operation returned normally; state changed: %r; notifications: %r"
                                         % ([(k, pv.get(k), r.vals.get(k)) for k in dv[:4]], strip(r.log)[:4]))
     if not (type(r.exc) is E or isinstance(r.exc, TraitError)):
         return "wrong-exception:" + type(r.exc).__name__, "caller saw %r" % (r.exc,)
-    dv = diff_values(pv, r.vals, (pids, r.ids))
+    dv = diff_values(pv, r.vals, same)
     if dv:
         return "state-changed", "changed: %r" % [(k, pv.get(k), r.vals.get(k)) for k in dv[:4]]
     dc = diff_census(pc, r.cen)
     if dc:
         return "census-changed", "census: %r" % [(k, pc.get(k), r.cen.get(k)) for k in dc[:4]]
-    if r.log or r.chan:
-        return "notified", "log %r channels %r" % (strip(r.log)[:4], r.chan[:4])
-    if r.stale:
-        return "cache-stale", "cached property %s is stale" % r.stale
+    if strip(r.log) != base.log or [c[:2] for c in r.chan] != base.chan:
+        return "notified", "log %r channels %r (expected %r %r)" % (strip(r.log)[:4], r.chan[:4],
+                                                                    base.log[:4], base.chan[:4])
+    if newly_stale(r.stale, base.stale):
+        return "cache-stale", "cached property %s is stale" % newly_stale(r.stale, base.stale)
     return None, ""
 
 
@@ -1138,7 +1357,7 @@ def logs_agree(a, b, relax):
     return True
 
 
-def same_run(r, t, relax=None):
+def same_run(r, t, relax=None, ignore_injected=False):
     """Observational identity of two runs of one operation on equal pre-states."""
     if r.out != t.out:
         return "outcome %r vs %r" % (r.out, t.out)
@@ -1151,7 +1370,11 @@ def same_run(r, t, relax=None):
     a, b = strip(r.log), strip(t.log)
     if not logs_agree(a, b, relax):
         return "log %r vs %r" % (a[:6], b[:6])
-    if [c[:2] for c in r.chan] != [c[:2] for c in t.chan]:
+    if ignore_injected:
+        # whether (and as which type) the injected exception itself is reported is not compared
+        if [c[:2] for c in r.chan if not c[2]] != [c[:2] for c in t.chan if not c[2]]:
+            return "channels %r vs %r" % (r.chan, t.chan)
+    elif [c[:2] for c in r.chan] != [c[:2] for c in t.chan]:
         return "channels %r vs %r" % (r.chan, t.chan)
     return None
 
@@ -1174,20 +1397,65 @@ class History:
         return w
 
     def twin_without(self, j):
-        t = self.without.get(j)
+        return self.twin_repl(j, _SKIP)
+
+    def twin_repl(self, j, op2):
+        """The fault-free history with op j left out (_SKIP) or replaced by op2."""
+        key = (j, "skip" if op2 is _SKIP else repr(op2))
+        t = self.without.get(key)
         if t is None:
-            t = self.without[j] = Trace(self.env, self.classes, self.cfg, self.ops, skip=j)
+            t = self.without[key] = Trace(self.env, self.classes, self.cfg, self.ops,
+                                          replace={j: op2}, count_at=j)
         return t
+
+    def learn_multi(self, j, op, pre, nticks):
+        """A multi-set is one assignment per name.  Returns (cs, bases, roles): cs[m] = ticks
+        made by the first m names, bases[m] = Base after the first m names (bases[0] = the
+        pre-state), roles re-measured against the base of the name each tick belongs to."""
+        env = self.env
+        pairs = op[2]
+        cs = [0]
+        bases = [Base(pre[0], pre[1], None, [], [], None)]
+        for m in range(1, len(pairs)):
+            t = self.twin_repl(j, (op[0], op[1], pairs[:m]))
+            x = t.res[j]
+            cs.append(t.nticks)
+            bases.append(Base(x.vals, x.cen, None, strip(x.log), [c[:2] for c in x.chan], x.stale))
+        cs.append(nticks)
+        g = replay_prefix(env, self.classes, self.cfg, self.ops, j)
+        l0, c0 = len(env.log), len(env.chan)
+
+        def probe():
+            n = env.fp.n
+            m = 1
+            while m < len(pairs) and n > cs[m]:
+                m += 1
+            b = bases[m - 1]
+            if env.depth or len(env.log) - l0 != len(b.log) or len(env.chan) - c0 != len(b.chan):
+                return True
+            v, c, _ = g.snap()
+            return bool(diff_values(b.vals, v)) or bool(diff_census(b.cen, c))
+        env.fp.learn(probe)
+        r = run_op(g, op)
+        return cs, bases, roles_of(env.fp.post, r.kinds)
 
     def follow(self, g, j, ref, relax=None):
         """Run ops j+1.. on the faulted graph g and compare with trace `ref` op by op.
         Returns (index, description) of the first divergence or None."""
         ctx = self.ctx
         cont = [None] * (j + 1)
+        cut = False
         for m in range(j + 1, len(self.ops)):
             r = run_op(g, self.ops[m])
             cont.append(r)
-            if ref is None:
+            if ref is None or cut:
+                continue
+            if relax is not None and m > j + 1 and relax in ref.res[m - 1].stale:
+                # the faulted cached property could not refill its cache; the twin refilled it and
+                # a quiet set has since made the twin's cache stale (nothing invalidates it): from
+                # here on the twin reads a stale value and is no reference for this property
+                cut = True
+                ctx.count("followups_cut_at_stale_twin")
                 continue
             ctx.ev()
             ctx.count("followup_ops_compared")
@@ -1195,8 +1463,8 @@ class History:
             if relax is not None and any((e[2], e[3]) == relax for e in r.log):
                 # the faulted cached property was notified again later in the history
                 ctx.count("cached_property_renotified_after_fault:" + relax[1])
-            if d is None and r.stale:
-                d = "cached property %s is stale" % r.stale
+            if d is None and newly_stale(r.stale, ref.res[m].stale):
+                d = "cached property %s is stale" % newly_stale(r.stale, ref.res[m].stale)
             if d is not None:
                 return m, d
         g.cont = cont
@@ -1234,14 +1502,30 @@ class History:
                 ctx.count("ticks_capped", nj - TICK_CAP)
                 nj = TICK_CAP
             pre = twin.pre[j]
+            multi = None
+            if op[0] == "multi" and len(op[2]) > 1 and nj:
+                multi = self.learn_multi(j, op, pre, len(kinds))
+                roles = multi[2]
+                if len(roles) != len(kinds):
+                    ctx.violation("harness/nondeterministic-replay",
+                                  "multi-set op %d made %d ticks in the twin, %d when re-learnt"
+                                  % (j, len(kinds), len(roles)), self.witness(op=j))
+                    return True
+            quiet_op = op[0] == "multi" and op[1] != "notify"
             for k in range(1, nj + 1):
                 kind = kinds[k - 1]
                 post = roles[k - 1]
                 is_alt = kind.startswith("alt-")
+                nested = post and not kind.startswith(("handler-", "getter", "cached-getter"))
                 alt_ref = None          # the run in which this callback raised TraitError
+                sub = 1                 # which name of a multi-set this tick belongs to
+                if multi is not None:
+                    while sub < len(op[2]) and k > multi[0][sub]:
+                        sub += 1
                 for E in EXCS:
                     g = replay_prefix(env, classes, cfg, ops, j)
                     pre_g = g.snap()
+                    pre_stale = cache_stale(g.ws)
                     if diff_values(pre_g[0], pre[0]) or diff_census(pre_g[1], pre[1]):
                         ctx.violation("harness/nondeterministic-replay",
                                       "replaying the first %d ops did not rebuild the twin's state: %r %r"
@@ -1254,6 +1538,10 @@ class History:
                     ctx.ev()
                     ctx.count("faults_injected")
                     ctx.count("faults:" + kind)
+                    if quiet_op:
+                        ctx.count("faults:in-quiet-set")
+                    if sub > 1:
+                        ctx.count("faults:in-multi-set:later-name")
                     if kind == "adapter-factory" and op[1] in ADAPT_DEFAULT_MODE:
                         ctx.count("faults:adapter-factory:default-mode")
                         cur = pre_g[0].get(("W", op[1]))
@@ -1273,11 +1561,19 @@ class History:
                     if not post:
                         # ---------------- pre-commit: the callback decides ----------
                         ctx.count("precommit_judged")
-                        complaint, detail = first_pre_complaint(E, r, pre_g)
+                        if sub == 1:
+                            base = Base(pre_g[0], pre_g[1], pre_g[2], [], [], pre_stale)
+                        else:
+                            base = multi[1][sub - 1]
+                        complaint, detail = first_pre_complaint(E, r, base)
                         ref = None
                         relax = None
                         if complaint is None:
-                            ref = self.twin_without(j)
+                            if sub == 1:
+                                ref = self.twin_without(j)
+                            else:
+                                # the twin that only ever assigned the names before the failing one
+                                ref = self.twin_repl(j, (op[0], op[1], op[2][:sub - 1]))
                             ctx.count("precommit_no_effect")
                         elif is_alt:
                             # clause (ii): "this alternative rejects"
@@ -1295,9 +1591,11 @@ class History:
                                     ref = twin
                                 else:
                                     ctx.count("alt_reference_runs")
-                                    if r.stale:
+                                    if newly_stale(r.stale, pre_stale, base.stale, tr.stale):
                                         ctx.violation("pre-commit/%s/%s/cache-stale" % (kind, okind),
-                                                      "cached property %s stale" % r.stale, self.witness(**info))
+                                                      "cached property %s stale"
+                                                      % newly_stale(r.stale, pre_stale, base.stale, tr.stale),
+                                                      self.witness(**info))
                                         return True
                                 alt_ref = (r, g)
                             else:
@@ -1319,6 +1617,50 @@ class History:
                             return True
                         if is_alt and E is TraitError and complaint is None:
                             alt_ref = (r, g)
+                    elif nested:
+                        # ---------------- a deciding callback of a NESTED assignment -------
+                        # (e.g. the partner's validator while sync_trait forwards a change): its
+                        # caller is traits itself, which treats a failure as "the partner rejects".
+                        # Nothing may reach the outer caller, the run must be the one in which the
+                        # callback rejected with TraitError, and so must everything afterwards.
+                        ctx.count("postcommit_judged")
+                        ctx.count("nested_deciding_judged")
+                        relax = None
+                        ref = None
+                        if r.out != tr.out:
+                            ctx.violation("post-commit/%s/exception-reached-caller" % kind,
+                                          "%s raised in a post-commit %s callback (tick %d of %r): caller saw %r "
+                                          "(fault-free outcome %r) [a callback that decides the outcome ran "
+                                          "after the operation's effect was already visible]"
+                                          % (E.__name__, kind, k, op, r.exc or r.out, tr.out), self.witness(**info))
+                            return True
+                        if newly_stale(r.stale, pre_stale, tr.stale):
+                            ctx.violation("post-commit/%s/cache-stale" % kind,
+                                          "%s raised in a nested %s callback (tick %d of %r): cached property "
+                                          "%s stale" % (E.__name__, kind, k, op, r.stale), self.witness(**info))
+                            return True
+                        if E is TraitError:
+                            if k in twin.nat[j]:
+                                d = same_run(r, tr, ignore_injected=True)
+                                if d is not None:
+                                    ctx.violation("post-commit/%s/differs-from-rejection" % kind,
+                                                  "injecting TraitError where the nested callback rejects anyway "
+                                                  "changed the run: %s" % d, self.witness(**info))
+                                    return True
+                                ref = twin
+                            else:
+                                ctx.count("nested_reference_runs")
+                            alt_ref = (r, g)
+                        else:
+                            d = same_run(r, alt_ref[0], ignore_injected=True)
+                            ctx.count("nested_rejection_twin_compared")
+                            if d is not None:
+                                ctx.violation("post-commit/%s/differs-from-rejection" % kind,
+                                              "%s raised in a nested %s callback (tick %d of %r): the run differs "
+                                              "from the one in which the callback rejected with TraitError: %s"
+                                              % (E.__name__, kind, k, op, d), self.witness(**info))
+                                return True
+                            ref = "alt"
                     else:
                         # ---------------- post-commit: notification phase -----------
                         ctx.count("postcommit_judged")
@@ -1365,9 +1707,9 @@ class History:
                                 detail = "channels %r (fault-free %r)" % (r.chan, tr.chan)
                             elif len(mine) > 1:
                                 ctx.count("injected_exception_reported_more_than_once")
-                        if complaint is None and r.stale:
+                        if complaint is None and newly_stale(r.stale, tr.stale):
                             complaint = "cache-stale"
-                            detail = "cached property %s" % r.stale
+                            detail = "cached property %s" % newly_stale(r.stale, tr.stale)
                         if complaint is not None:
                             note = ""
                             if not kind.startswith(("handler-", "getter", "cached-getter")):
@@ -1384,11 +1726,19 @@ class History:
                     # ---------------- afterwards ---------------------------------
                     if ref is None:
                         continue
+                    l1 = len(env.log)
+                    c1 = ctx.counters.get("followup_ops_compared", 0)
                     if ref == "alt":
                         # compare with the continuation of the TraitError twin, run now
                         d = self.follow_pair(g, alt_ref[1], j)
                     else:
                         d = self.follow(g, j, ref, relax)
+                    if quiet_op and not post:
+                        # handlers seen firing again after a failed quiet set
+                        ctx.count("notifications_after_failed_quiet_set", len(env.log) - l1)
+                    if nested:
+                        ctx.count("nested_followup_ops_compared",
+                                  ctx.counters.get("followup_ops_compared", 0) - c1)
                     if d is not None:
                         info["diverged_at"] = d[0]
                         info["diverging_op"] = repr(ops[d[0]])
@@ -1419,6 +1769,8 @@ class _Cont:
 def run(ctx):
     push_exception_handler(_legacy_exc, reraise_exceptions=False, main=True)
     obsapi.push_exception_handler(_obs_exc)
+    old_tracers = get_change_event_tracers()
+    set_change_event_tracers(_pre_tracer, _post_tracer)
     try:
         with warnings.catch_warnings():
             warnings.simplefilter("ignore")
@@ -1433,5 +1785,6 @@ def run(ctx):
                 finally:
                     ctx.end()
     finally:
+        set_change_event_tracers(*old_tracers)
         obsapi.pop_exception_handler()
         pop_exception_handler()
